@@ -318,4 +318,50 @@ def leafCountsFields : List (Key × Schema) → List (Key × Slot) → List Nat
   | [], _ => []
 end
 
+
+/-! ### what each leaf column holds (used by the correspondence check only) -/
+
+/-- a non-null leaf value: `value` columns hold the variant encoding of the (residual) value against
+    the row dictionary, typed columns hold `toCol` -/
+inductive LeafVal
+  | enc (b : Bytes)
+  | col (c : ColVal)
+
+def appendVec : List (List LeafVal) → List (List LeafVal) → List (List LeafVal)
+  | a :: as, b :: bs => (a ++ b) :: appendVec as bs
+  | _, _ => []
+
+/-- MIRROR variant_shredded_write.go:131-138 `writeValueFallback` -/
+def valCell (d : Dict) : Option Value → List LeafVal
+  | none => []
+  | some v => [.enc (enc d v)]
+
+mutual
+/-- the non-null values one slot contributes to each leaf column, in schema order -/
+def leafValues (d : Dict) : Schema → Slot → List (List LeafVal)
+  | s, .missing => List.replicate (numLeaves s) []
+  | .untyped, .mk v _ => [valCell d v]
+  | .prim t, .mk v ty =>
+    [valCell d v, match ty with
+      | .prim p => (match toCol t p with
+        | some c => [.col c]
+        | none => [])
+      | _ => []]
+  | .list e, .mk v ty =>
+    valCell d v :: (match ty with
+      | .list slots => leafValuesList d e slots
+      | _ => List.replicate (numLeaves e) [])
+  | .obj fs, .mk v ty =>
+    valCell d v :: (match ty with
+      | .obj tfs => leafValuesFields d fs tfs
+      | _ => List.replicate (numLeavesFields fs) [])
+def leafValuesList (d : Dict) : Schema → List Slot → List (List LeafVal)
+  | e, [] => List.replicate (numLeaves e) []
+  | e, s :: ss => appendVec (leafValues d e s) (leafValuesList d e ss)
+def leafValuesFields (d : Dict) : List (Key × Schema) → List (Key × Slot) → List (List LeafVal)
+  | (_, s) :: fs, (_, sl) :: sls => leafValues d s sl ++ leafValuesFields d fs sls
+  | (_, s) :: fs, [] => List.replicate (numLeaves s) [] ++ leafValuesFields d fs []
+  | [], _ => []
+end
+
 end PqModel.Variant
